@@ -26,7 +26,7 @@ FLOORS = {"quick": {"extractors_total": 6000, "extractors_sampled": 6000, "membe
                     "case_insensitive_members": 150, "fold_substituted_members": 40},
           "thorough": {"extractors_sampled": 6000, "members_checked": 300000, "doc_lossless_checks": 3000,
                        "stream_equal_full": 3000, "stream_equal_sublist": 20000}}
-K = {"quick": 2, "thorough": 16}
+K = {"quick": 2, "thorough": 48}
 NDOC = {"quick": 25, "thorough": 300}
 NSUB = {"quick": 90, "thorough": 1800}
 SHARDS = {"quick": 8, "thorough": 14}
